@@ -30,6 +30,9 @@ type c16Params struct {
 	Glue     bool   `json:"glue,omitempty"`
 	ForgeHow []int  `json:"forge"`    // per negative entry (in order): 0 flip body byte, 1 flip tag/mac byte, 2 wrong epoch, 3 seq rewritten to a fresh number, 4 garbage with valid-looking header, 5 version, 6 length beyond the datagram, 7 length 0xffff, 8 datagram shorter than a record header, 9 content type
 	Boundary bool   `json:"boundary"` // delivery order built around the window edge
+	// OuterWindow != 0 (the server receives): the server's listener configuration has this ReplayWindow (-1: unset)
+	// and hands out, through GetConfigForClient, the configuration with Window - the one in force
+	OuterWindow int `json:"outer_window,omitempty"`
 }
 
 func (c16) ID() string    { return "C16" }
@@ -59,12 +62,17 @@ func drawC16(src *vs.Src) *c16Params {
 	p.Suite = pickU16(src, []uint16{ECC_GCM, ECC_CBC})
 	p.Window = pickInt(src, []int{0, 0, 1, 8, 16, 31, 32, 33, 48, 63, 64, 65, 96, 128, 160})
 	p.Sender = src.Intn(2)
-	p.API = pickStr(src, []string{"readfrom", "readfrom", "read", "mixed"})
+	// mixed-small: Read with a 10-byte buffer (a payload has 24 bytes: the rest of the record stays pending) and
+	// ReadFrom in turn
+	p.API = pickStr(src, []string{"readfrom", "readfrom", "read", "mixed", "mixed-small"})
 	// only on the Read path, which takes a datagram record by record; ReadFrom takes one record per datagram
 	// (the library's sender never packs application records), so that a datagram changed in transit is, for
 	// it, a datagram that did not arrive
 	p.Glue = p.API == "read" && src.Bool(1, 2)
 	p.SeqExp = pickInt(src, []int{0, 0, 0, 16, 24, 32, 40, 47})
+	if p.Sender == 0 && src.Bool(1, 3) {
+		p.OuterWindow = pickInt(src, []int{-1, 1, 32, 40, 64, 128})
+	}
 	p.Boundary = src.Bool(1, 2)
 	if p.Boundary {
 		p.N = 70 + src.Intn(110)
@@ -157,6 +165,9 @@ func (c16) Run(c *Case, src *vs.Src) *Result {
 	env := NewEnv(w)
 	cc := &EPConf{Suites: []uint16{p.Suite}, ServerName: "server.test", ReplayWindow: p.Window}
 	sc := &EPConf{Suites: []uint16{p.Suite}, Certs: []string{"server_sig", "server_enc"}, ReplayWindow: p.Window}
+	if p.OuterWindow != 0 {
+		sc.Clone, sc.OuterWindow = 2, p.OuterWindow
+	}
 	pair := NewPair(DTLCP, env, cc, sc, "c", "s", "client:1", "server:443")
 	sender, receiver := pair.DC, pair.DS
 	sendDir := simnet.DirC2S
@@ -240,10 +251,48 @@ func (c16) Run(c *Case, src *vs.Src) *Result {
 		handshook++
 		vs.Block(func() bool { return injected }, time.Time{})
 		buf := make([]byte, 2048)
-		for {
+		var stream []byte // what the small Reads returned, in order
+		flush := func() {
+			for len(stream) >= 24 {
+				got = append(got, append([]byte(nil), stream[:24]...))
+				stream = stream[24:]
+			}
+			if len(stream) > 0 {
+				got = append(got, append([]byte(nil), stream...)) // an incomplete payload: reported as never sent
+				stream = nil
+			}
+		}
+		for calls := 0; ; calls++ {
 			receiver.SetReadDeadline(vs.Now().Add(2 * time.Second))
 			var n int
 			var err error
+			if p.API == "mixed-small" {
+				if calls%2 == 0 {
+					n, err = receiver.Read(buf[:10])
+					stream = append(stream, buf[:n]...)
+				} else if n, _, err = receiver.ReadFrom(buf); err == nil {
+					got = append(got, append([]byte(nil), buf[:n]...))
+				}
+				if err != nil {
+					// drain what is still pending of the last record
+					for k := 0; k < 4 && isTimeout(err); k++ {
+						receiver.SetReadDeadline(vs.Now().Add(200 * time.Millisecond))
+						m, e := receiver.Read(buf[:10])
+						stream = append(stream, buf[:m]...)
+						if e != nil {
+							break
+						}
+					}
+					flush()
+					endErr = err
+					return
+				}
+				if len(got)+len(stream) > 40*len(p.Deliver)+40 {
+					endErr = fmt.Errorf("harness: too many deliveries")
+					return
+				}
+				continue
+			}
 			if p.API == "readfrom" || (p.API == "mixed" && len(got)%2 == 0) {
 				n, _, err = receiver.ReadFrom(buf)
 			} else {
